@@ -217,7 +217,7 @@ class C08(Check):
     level_text = ('Every position of each generated stack is faulted once per run (fault_enumeration over positions); behaviours, '
                   'handlers, messages and histories are sampled by seed; each faulty request is followed by recovery probes.')
     level_note = 'Trusted: the outcome model (~60 lines, from the property text); the gateway monitor.'
-    required_probes = ('first-time-import-during-a-request', 'error-log-stream-in-a-narrow-encoding', 'first-requests-of-a-process', 'typed-binding-odd-segment', 'concurrent-faulted-requests', 'handler-installed-as-type-on-application-subclass', 'tracebacklimit-set', 'debug-handler-without-frames', 'other-application-in-process', 'escaped-original-exception', 'render-error-fallback', 'handler-replaced-error', 'recovered',
+    required_probes = ('warnings-of-a-category-escalated', 'first-time-import-during-a-request', 'error-log-stream-in-a-narrow-encoding', 'first-requests-of-a-process', 'typed-binding-odd-segment', 'concurrent-faulted-requests', 'handler-installed-as-type-on-application-subclass', 'tracebacklimit-set', 'debug-handler-without-frames', 'other-application-in-process', 'escaped-original-exception', 'render-error-fallback', 'handler-replaced-error', 'recovered',
                        'nonbreaking-http', 'huge-message')
 
     def gen_config(self, rng):
@@ -230,7 +230,9 @@ class C08(Check):
                 # the interpreter-wide traceback depth limit an operator may have set (0 = no frames recorded)
                 'tracebacklimit': rng.choice([None, None, None, None, 0, 0, 1, -1, 3]),
                 # the server's error log (wsgi.errors): a text stream that takes anything, or one in ASCII / strict UTF-8
-                'errors_stream': rng.choice([None, None, 'ascii', 'utf8'])}
+                'errors_stream': rng.choice([None, None, 'ascii', 'utf8']),
+                # the process escalates warnings of some category to errors (-W error::RuntimeWarning, a test runner's setting)
+                'warnings_error': rng.choice([None, None, None, 'UserWarning', 'RuntimeWarning'])}
 
     def gen_fault(self, rng, is_leaf):
         msg = rng.choice(sorted(MSGS))
@@ -394,7 +396,11 @@ class C08(Check):
                 res.probe('tracebacklimit-set')
                 if cfg['handler'] == 'debug' and cfg['tracebacklimit'] <= 0:
                     res.probe('debug-handler-without-frames')
-            return self._execute(plan, res, cfg, K)
+            from sim.core.seams import WarningsEscalated
+            if cfg.get('warnings_error'):
+                res.probe('warnings-of-a-category-escalated')
+            with WarningsEscalated([cfg.get('warnings_error')]):
+                return self._execute(plan, res, cfg, K)
         finally:
             if had is None:
                 if hasattr(sys, 'tracebacklimit'):
